@@ -156,7 +156,12 @@ def render(shape, toks, rng, sign, props):
     body = f'({body})' if rng.random() < 0.8 else f' {body}'
     line = f'{sign}{name}{body}'
     if props:
-        line += ' # ' + ' '.join(props)
+        # property names are case-insensitive in DS9 files
+        def recase(pr):
+            k, _, v = pr.partition('=')
+            r = rng.random()
+            return (k.upper() if r < 0.15 else k.capitalize() if r < 0.25 else k) + '=' + v
+        line += ' # ' + ' '.join(recase(pr) for pr in props)
     return line
 
 
